@@ -173,7 +173,7 @@ def bounded(ctx):
         rx = gen_cls._get_regex()
         n = len(text)
         starts = [j for j in range(n) if rx.regex.match(text + text, j, j + n)]
-        return len(starts) == 1
+        return len(starts) <= 1      # (several candidate matches are outside the hypothesis; none at all is not)
 
     for cls in sig_classes:
         if not derives_from_signature(cls, core):
@@ -206,15 +206,22 @@ def bounded(ctx):
             check(cls, s, "generic with random overhangs")
     # user-defined signatures incl. degenerate ones, over several enzymes
     from Bio.Restriction import BsaI, BsmBI, SapI
-    for e in (BsaI, BsmBI, SapI):
+    # (the last two: cutters whose recognition site holds an ambiguity code -- beyond the enzyme family of the statement, kept
+    # to the records free of further sites, see DESIGN 7.0)
+    amb_ = [x_[1] for x_ in gen.ambiguous_site_enzymes() if "N" not in x_[2]]
+    for e in (BsaI, BsmBI, SapI) + tuple(amb_):
         site, a, k = be.enzyme_geometry(e)
         for sig in (("N" * k, "N" * k), ("R" * k, "Y" * k), ("A" + "N" * (k - 1), "W" * k), ("ACGT"[:k], "TGCA"[:k]),
                     # signatures that overlap themselves (AAAA, ACAC ...): an occurrence may begin inside another one
                     ("A" * k, "C" * k), (("AC" * k)[:k], ("GT" * k)[:k]), (("AAT" * k)[:k], "T" * k)):
             for base in (core.Entry, core.EntryVector):
                 cls = type("UserPart", (core.AbstractPart, base), dict(cutter=e, signature=sig))
-                members = be.class_records(cls, rng, count=2)
-                for s in members + be.class_records(generic_for(cls), rng, count=2):
+                members = be.class_records(cls, rng, count=2 if e not in amb_ else 6)
+                if e in amb_:
+                    members = [s_ for s_ in members if ba.count_sites(s_, e) == (1, 1) and not set(be.occurrences(s_, site)) & set(be.occurrences(s_, gen.rc(site)))]
+                    if not members:
+                        continue
+                for s in members + (be.class_records(generic_for(cls), rng, count=2) if e not in amb_ else []):
                     check(cls, s, "user signature %r" % (sig,))
                 for r_ in range(1, len(members[0])):
                     check(cls, members[0][r_:] + members[0][:r_], "user signature %r, member rotated" % (sig,))
